@@ -227,7 +227,7 @@ def main():
             # the process died or the go test failed without a recorded failure
             out = j["output"]
             lc = j["env"]["VERIF_LASTCASE"]
-            tail = out[-3000:]
+            tail = out if len(out) <= 7000 else out[:3500] + "\n...[%d bytes omitted]...\n" % (len(out) - 7000) + out[-3500:]
             if st is None and os.path.exists(lc) and ("fatal error" in out or "SIGSEGV" in out or "unexpected signal" in out
                                                         or "panic:" in out or "SIGBUS" in out):
                 if "out of memory" in out and not plan.get("oom_is_violation"):
